@@ -153,6 +153,8 @@ class ThrRunner:
         if ctor_jobs or any(o.get("ctor") for o in scn.get("ops", [])):
             kind = scn.get("ctor_kind", "set")
             kw["jobs"] = set(ctor_jobs) if kind == "set" else list(ctor_jobs)
+        # the caller keeps (and may later mutate) the very collection it passed
+        self.ctor_arg = kw.get("jobs")
         self.ctor_error = None
         try:
             self.sched = Scheduler(**kw)
@@ -396,6 +398,20 @@ class ThrRunner:
                 if self.scn.get("mutate_snapshots"):
                     r.clear()
                     r.add(object())
+            elif k == "mutate" and o.get("what") == "ctor_arg":
+                # the caller changes the collection it handed to Scheduler(jobs=...)
+                arg = self.ctor_arg
+                if isinstance(arg, set):
+                    how = o.get("how", "clear")
+                    if how == "clear":
+                        arg.clear()
+                    elif how == "discard" and arg:
+                        arg.discard(sorted(arg, key=lambda j: self.key_of[id(j)])[0])
+                    elif how == "add_all":
+                        arg.update(self.created)
+                elif isinstance(arg, list):
+                    arg.clear()
+                obs["res"] = ("u",)
             elif k == "mutate":
                 cell = self.cells[o["key"]] if o["key"] < len(self.cells) else None
                 if cell is not None:
